@@ -304,17 +304,27 @@ counter non-zero and waits in its select (3); then producer i finishes (flag, se
 writer takes its object (receive, reset, decrement, BatchWrite — batch size 1 — commit, Done, end of commit:
 7 steps, back at the loop condition); finally the writer leaves the loop (via the non-zero counter test the
 first p-1 times) and Stop returns. -/
-def windowSched (p : Nat) : List (Nat × Nat) :=
+def windowSchedW (w : Nat) (p : Nat) : List (Nat × Nat) :=
   rep 0 12 ++ ((List.range (p - 1)).map (fun i => rep (i + 1) 4)).flatten
     ++ rep p 4 ++ rep (p + 1) 3
-    ++ ((List.range p).map (fun i => rep i 3 ++ rep (p + 1) 7 ++ (if i + 1 < p then rep (p + 1) 2 else []))).flatten
+    ++ ((List.range p).map (fun i => rep i 3 ++ rep (p + 1) w ++ (if i + 1 < p then rep (p + 1) 2 else []))).flatten
     ++ rep (p + 1) 3 ++ rep p 3
+
+def windowSched (p : Nat) : List (Nat × Nat) := windowSchedW 7 p
+
+/-- Queue size 0: the same forced schedule; the producer's send is the hand-off to the writer waiting in its
+select, so the writer has no receive step of its own (6 steps instead of 7). -/
+def windowSchedU (p : Nat) : List (Nat × Nat) := windowSchedW 6 p
 
 /-- Repaired code, `window-dup`: producer 0 through its successful flag test-and-set (13 steps), producer 1
 enqueues the same object (counts, passes the check, finds it scheduled, un-counts, returns: 7 steps), Stop up
 to its Wait, the writer waits (counter is 1), producer 0 sends and returns, the writer writes, Stop returns. -/
 def windowDupSched : List (Nat × Nat) :=
   rep 0 13 ++ rep 1 7 ++ rep 2 4 ++ rep 3 3 ++ rep 0 2 ++ rep 3 7 ++ rep 3 3 ++ rep 2 3
+
+/-- `window-dup` with queue size 0 (hand-off instead of send + receive). -/
+def windowDupSchedU : List (Nat × Nat) :=
+  rep 0 13 ++ rep 1 7 ++ rep 2 4 ++ rep 3 3 ++ rep 0 2 ++ rep 3 6 ++ rep 3 3 ++ rep 2 3
 
 /-- `two-stops`: producer 0, two Stop callers, the writer. -/
 def twoStopsThreads : List Thread :=
@@ -326,6 +336,11 @@ invoked and blocks on the mutex (1); release: the writer commits, calls Done and
 (3), Stop 1 gets the mutex, finds `running` false and returns (4). -/
 def twoStopsSched : List (Nat × Nat) :=
   rep 0 15 ++ rep 3 6 ++ rep 1 4 ++ rep 2 1 ++ rep 3 6 ++ rep 1 3 ++ rep 2 4
+
+/-- `two-stops` with queue size 0: the producer runs up to its send (13), the writer reaches its select (2),
+the producer hands the object over and returns (2), the writer resets, decrements, writes (3); the rest as above. -/
+def twoStopsSchedU : List (Nat × Nat) :=
+  rep 0 13 ++ rep 3 2 ++ rep 0 2 ++ rep 3 3 ++ rep 1 4 ++ rep 2 1 ++ rep 3 6 ++ rep 1 3 ++ rep 2 4
 
 def stuckProducers (S : Sys St Thread) (c : Cfg St Thread) : List Nat :=
   c.2.filterMap (fun t => match t with
@@ -356,10 +371,13 @@ def modelLine (ws : List String) : String :=
   let q := kvArg "q" ws
   let p := kvArg "p" ws
   match ws with
-  | "window" :: _ => projections sys (runSched sys (initSt q 1, witnessThreads p (fun _ => 0)) (windowSched p)) p
+  | "window" :: _ =>
+    projections sys (runSched sys (initSt q 1, witnessThreads p (fun _ => 0)) (if q = 0 then windowSchedU p else windowSched p)) p
   | "window-block" :: _ => projections sys (runSched sys (initSt q 1, witnessThreads p id) (windowSched p)) p
-  | "window-dup" :: _ => projections sys (runSched sys (initSt q 1, witnessThreads 2 (fun _ => 0)) windowDupSched) 2
-  | "two-stops" :: _ => projections sys (runSched sys (initSt q 1, twoStopsThreads) twoStopsSched) 1 2
+  | "window-dup" :: _ =>
+    projections sys (runSched sys (initSt q 1, witnessThreads 2 (fun _ => 0)) (if q = 0 then windowDupSchedU else windowDupSched)) 2
+  | "two-stops" :: _ =>
+    projections sys (runSched sys (initSt q 1, twoStopsThreads) (if q = 0 then twoStopsSchedU else twoStopsSched)) 1 2
   | _ => "unknown-witness"
 
 def showVerdict (final : Bool) : Option Why → String
